@@ -73,6 +73,13 @@ func findContentScenario(c map[string]any, seed int64, rep int) (map[string]any,
 	key := make([]byte, 1+rng.Intn(60))
 	rng.Read(key)
 	cid := sha256.Sum256(key)
+	if a, _ := c["asker"].(string); a == "closest" {
+		// a content id near the asker's node id: the asker's record is among the closest candidates
+		for tries := 0; tries < 5000 && enode.LogDist(A.P.Self().ID(), enode.ID(cid)) > 250; tries++ {
+			rng.Read(key)
+			cid = sha256.Sum256(key)
+		}
+	}
 	ev := map[string]any{"ev": "findcontent", "case": c, "stored": stored, "size": size, "slen": 0, "stag": 0, "kind": "noobs", "len": 0, "tag": 0,
 		"maxdg": 0, "enrs": []map[string]any{}, "table": []map[string]any{}, "asker_in_table": false, "detail": "", "common": c["common"]}
 	var content []byte
